@@ -281,3 +281,117 @@ Fixpoint run_s (st : state) (l : list (bool * env * storage_beh)) : list (bool *
       | Done o => (fetchMetadata st1, Done (o, received sv o)) :: run_s (co_state o) r
       end
   end.
+
+(* ---- what Go really consults (added 2026-10-02, audit C11; nothing above changed) -------------
+   The type `env` bakes in two assumptions about the outside world:
+     (a) leader_stable: client.Leader(t, p) gives the same answer at :179 (during the refresh) and at :219 (in
+         generateOffsetRequests) of one cycle.  Go calls it twice; sarama's Leader may itself refresh on a miss.
+     (b) answers_match_asks: a broker's OffsetResponse holds exactly the blocks it was asked.  Go ranges over
+         response.Blocks (:262-263): an asked block that is missing yields nothing at all (no update, no flag); a
+         block that was not asked is treated like any other (update with cap(module.topicPartitions[t]) as count:
+         0 for a topic the module does not know; error code => flag; ErrNoError without offsets => panic).
+   `xenv` drops both: `x_env` keeps Topics, Partitions, Leader AT REFRESH and the answers for asked blocks;
+   `x_leader_req` is Leader in generateOffsetRequests; `x_omit b t p`: b's response lacks the asked block (t, p);
+   `x_extra b`: the blocks of b's response that were not asked (topic, partition, (KError, Offsets)).
+   `xcycle` is getOffsets against such a world; under the two NAMED hypotheses it is `cycle` (ClusterModProofs.
+   xcycle_stable).  The run-level theorems are stated over `trace`, i.e. for worlds satisfying (a) and (b); the
+   one-cycle theorems x* of ClusterModProofs.v and the probe's `sc3` cases cover worlds that do not. *)
+Record xenv := mkXenv {
+  x_env : env;
+  x_leader_req : Z -> Z -> call Z;
+  x_omit : Z -> Z -> Z -> bool;
+  x_extra : Z -> list (Z * Z * (Z * list Z))
+}.
+
+Definition leader_stable (x : xenv) : Prop := forall t p, x_leader_req x t p = e_leader (x_env x) t p.
+Definition answers_match_asks (x : xenv) : Prop :=
+  (forall b t p, x_omit x b t p = false) /\ (forall b, x_extra x b = []).
+
+Definition plain (e : env) : xenv := mkXenv e (e_leader e) (fun _ _ _ => false) (fun _ => []).
+
+(* the world as generateOffsetRequests sees it *)
+Definition env_req (x : xenv) : env :=
+  mkEnv (e_topics (x_env x)) (e_parts (x_env x)) (x_leader_req x) (e_answer (x_env x)).
+
+Definition x_ask_result (x : xenv) (a : ask) : option block_result :=
+  if x_omit x (fst (fst a)) (snd (fst a)) (snd a) then None else ask_result (x_env x) a.
+
+Definition x_ask_update (x : xenv) (s : snapshot) (a : ask) : list update :=
+  match x_ask_result x a with
+  | Some (BUpdate o) => [(snd (fst a), snd a, o, count_of s (snd (fst a)))]
+  | _ => []
+  end.
+Definition x_is_error (x : xenv) (a : ask) : bool :=
+  match x_ask_result x a with Some BError => true | _ => false end.
+Definition x_is_crash (x : xenv) (a : ask) : bool :=
+  match x_ask_result x a with Some BCrash => true | _ => false end.
+
+Definition asked_brokers (asks : list ask) : list Z := nodup Z.eq_dec (map (fun a => fst (fst a)) asks).
+
+Definition ask_eqb (x y : ask) : bool := if ask_eq_dec x y then true else false.
+
+(* the unasked blocks of the responses that arrive: only brokers that were asked and whose call succeeded answer; a
+   block under a key that WAS asked of that broker is not "extra" (one block per key in a response map) *)
+Definition extra_results (x : xenv) (asks : list ask) : list (Z * Z * block_result) :=
+  flat_map (fun b =>
+    match e_answer (x_env x) b with
+    | Fail => []
+    | Good _ =>
+        map (fun tpb : Z * Z * (Z * list Z) =>
+               (fst (fst tpb), snd (fst tpb), block_result_of (fun _ _ => snd tpb) (fst (fst tpb)) (snd (fst tpb))))
+            (filter (fun tpb : Z * Z * (Z * list Z) => negb (existsb (ask_eqb (b, fst (fst tpb), snd (fst tpb))) asks))
+                    (x_extra x b))
+    end) (asked_brokers asks).
+
+Definition extra_update (s : snapshot) (r : Z * Z * block_result) : list update :=
+  match snd r with
+  | BUpdate o => [(fst (fst r), snd (fst r), o, count_of s (fst (fst r)))]
+  | _ => []
+  end.
+Definition br_is_error (r : Z * Z * block_result) : bool := match snd r with BError => true | _ => false end.
+Definition br_is_crash (r : Z * Z * block_result) : bool := match snd r with BCrash => true | _ => false end.
+
+Definition xcycle (st : state) (x : xenv) : outcome cycle_out :=
+  let '(s, dels) := maybe_refresh st (x_env x) in
+  let er := env_req x in
+  let asks := gen_asks er s in
+  let ex := extra_results x asks in
+  if existsb (x_is_crash x) asks || existsb br_is_crash ex then Crash
+  else
+    let fm := leader_failed er s || existsb (x_is_error x) asks || existsb br_is_error ex in
+    Done (mkOut (mkState fm s) asks (flat_map (x_ask_update x s) asks ++ flat_map (extra_update s) ex) dels).
+
+Fixpoint xrun (st : state) (l : list (bool * xenv)) : list (bool * outcome cycle_out) :=
+  match l with
+  | [] => []
+  | (tk, x) :: r =>
+      let st1 := tick tk st in
+      match xcycle st1 x with
+      | Crash => [(fetchMetadata st1, Crash)]
+      | Done o => (fetchMetadata st1, Done o) :: xrun (co_state o) r
+      end
+  end.
+
+(* rows for the driver: a partition row with its request-time leader and the omit mark *)
+Record xprow := mkXprow { xp_row : prow; xp_leader_req : call Z; xp_omit : bool }.
+Record xtrow := mkXtrow { xt_id : Z; xt_ok : bool; xt_parts : list xprow }.
+
+Definition xtable_plain (tb : list xtrow) : list trow :=
+  map (fun r => mkTrow (xt_id r) (xt_ok r) (map xp_row (xt_parts r))) tb.
+
+Fixpoint find_xtrow (t : Z) (tb : list xtrow) : option xtrow :=
+  match tb with [] => None | r :: q => if xt_id r =? t then Some r else find_xtrow t q end.
+Fixpoint find_xprow (p : Z) (ps : list xprow) : option xprow :=
+  match ps with [] => None | r :: q => if pr_id (xp_row r) =? p then Some r else find_xprow p q end.
+Definition find_xrow (tb : list xtrow) (t p : Z) : option xprow :=
+  match find_xtrow t tb with Some r => find_xprow p (xt_parts r) | None => None end.
+
+(* extras: (broker, topic, partition, KError, Offsets) *)
+Definition xenv_of_tables (topics : call (list Z)) (tb : list xtrow) (failing : list Z)
+           (extras : list (Z * Z * Z * Z * list Z)) : xenv :=
+  mkXenv (env_of_tables topics (xtable_plain tb) failing)
+         (fun t p => match find_xrow tb t p with Some r => xp_leader_req r | None => Fail end)
+         (fun _ t p => match find_xrow tb t p with Some r => xp_omit r | None => false end)
+         (fun b => flat_map (fun ex : Z * Z * Z * Z * list Z =>
+                               let '(b', t, p, err, offs) := ex in
+                               if b' =? b then [(t, p, (err, offs))] else []) extras).
